@@ -18,7 +18,7 @@ func scaleN(j *jobCtx) int {
 	if j.quick() {
 		return 1100
 	}
-	return 2300
+	return 1600
 }
 
 // churnN: number of rounds of the churn scripts
@@ -26,7 +26,7 @@ func churnN(j *jobCtx) int {
 	if j.quick() {
 		return 4500
 	}
-	return 18000
+	return 10000
 }
 
 // doubled: every value twice, in two interleavings
@@ -375,7 +375,7 @@ func scaleMap(j *jobCtx, kind string) {
 	}
 	n := scaleN(j)
 	if j.quick() && mapSorted(kind) {
-		n = 600 // (the hash kinds, which rehash, shrink and compact by size, go to 1100 in the quick tier; everything to 2300 in the thorough one)
+		n = 600 // (the hash kinds, which rehash, shrink and compact by size, go to 1100 in the quick tier; everything to 1600 in the thorough one)
 	}
 	bidi := mapBidi(kind)
 	for _, c := range cfgs {
